@@ -240,14 +240,17 @@ func checkLog(sc scen, st *schedState, live map[int]block) []sched.Viol {
 		PublicPort int       `json:"public_port"`
 		Timestamp  time.Time `json:"timestamp"`
 	}
-	// N4 time dimension: an auditor resolves (public address, port, TIME) with the records' timestamps. Two records
-	// about overlapping blocks must therefore carry timestamps in the order in which they were written (= the order
-	// in which the block changed hands); a later hand-over stamped EARLIER than the preceding one makes the interval
-	// in between attributable to two subscribers (or to the wrong one).
+	// N4 time dimension: an auditor resolves (public address, port, TIME) with the records' timestamps, i.e. reads the
+	// records in TIMESTAMP order (the order in the file is an accident of which writer got the logger lock first).
+	// Read that way the log must never assign a block while it still shows an overlapping block held by another
+	// subscriber, and must end with exactly the live allocations. A record stamped with a time taken before the
+	// block actually changed hands breaks this.
 	type stamped struct {
-		b    block
-		ts   time.Time
-		what string
+		b      block
+		ts     time.Time
+		what   string
+		sub    string
+		assign bool
 	}
 	var seen []stamped
 	held := map[string]block{}
@@ -271,13 +274,7 @@ func checkLog(sc scen, st *schedState, live map[int]block) []sched.Viol {
 			if r.Timestamp.IsZero() {
 				add("log-time", "record %q carries no timestamp", what)
 			}
-			for _, q := range seen {
-				if q.b.pub == nb.pub && q.b.start <= nb.end && nb.start <= q.b.end && r.Timestamp.Before(q.ts) {
-					add("log-time-ambiguous", "record %q is stamped %s, EARLIER than the preceding record %q (%s) about an overlapping block: read by time, the block is attributed to two subscribers in between",
-						what, r.Timestamp.Format("15:04:05"), q.what, q.ts.Format("15:04:05"))
-				}
-			}
-			seen = append(seen, stamped{nb, r.Timestamp, what})
+			seen = append(seen, stamped{nb, r.Timestamp, what, r.PrivateIP, r.EventType == "port_block_assign" || r.EventType == "allocate"})
 		}
 		switch r.EventType {
 		case "port_block_assign", "allocate":
@@ -296,6 +293,35 @@ func checkLog(sc scen, st *schedState, live map[int]block) []sched.Viol {
 		case "port_block_release", "deallocate":
 			delete(held, r.PrivateIP)
 			releases[r.PrivateIP]++
+		}
+	}
+	if st.virtual {
+		sort.SliceStable(seen, func(i, j int) bool { return seen[i].ts.Before(seen[j].ts) })
+		heldT := map[string]stamped{}
+		for _, r := range seen {
+			if !r.assign {
+				delete(heldT, r.sub)
+				continue
+			}
+			for p, o := range heldT {
+				if p != r.sub && o.b.pub == r.b.pub && o.b.start <= r.b.end && r.b.start <= o.b.end {
+					add("log-time-ambiguous", "read in timestamp order, record %q (%s) assigns a block while %q (%s) still shows %s holding an overlapping one: the time in between is attributed to two subscribers",
+						r.what, r.ts.Format("15:04:05"), o.what, o.ts.Format("15:04:05"), p)
+				}
+			}
+			heldT[r.sub] = r
+		}
+		for i, b := range live {
+			if h, ok := heldT[subIP(i).String()]; !ok || h.b != b {
+				add("log-time", "read in timestamp order the log ends with %v for subscriber %d, which holds %v", h.b, i, b)
+			}
+		}
+		if len(heldT) != len(live) {
+			var recs []string
+			for _, r := range seen {
+				recs = append(recs, r.ts.Format("15:04:05")+" "+r.what)
+			}
+			add("log-time", "read in timestamp order the log ends with %d held blocks, %d are live; records in timestamp order: %s", len(heldT), len(live), strings.Join(recs, " | "))
 		}
 	}
 	// expected record counts from the calls that succeeded (pre + threads)
